@@ -352,6 +352,56 @@ func runC10(c *eng.Ctx) {
 	c.Rule("SYMMETRY", "index{regex lookup: persisted candidates = all keys unless the expression is anchored}", func() { regexCandidates(c) })
 	c.Rule("GUARD", "index.indexKVStore.FindValuesByLike{no pattern slices out of range}", func() { likePatternSlices(c) })
 
+	c.Rule("OWNER", "index.indexKVStore{a bucket taken from the cache is not released by its reader}", func() {
+		n := 0
+		for _, fn := range p.AllFuncs {
+			if !strings.HasPrefix(p.FuncKey(fn), "index.indexKVStore.") {
+				continue
+			}
+			for _, b := range fn.Blocks {
+				for _, in := range b.Instrs {
+					var cc *ssa.CallCommon
+					switch x := in.(type) {
+					case *ssa.Call:
+						cc = x.Common()
+					case *ssa.Defer:
+						cc = x.Common()
+					}
+					if cc == nil {
+						continue
+					}
+					var recv ssa.Value
+					if cc.IsInvoke() && cc.Method.Name() == "Release" {
+						recv = cc.Value
+					} else if g := cc.StaticCallee(); g != nil && baseName(g.Name()) == "Release" && len(cc.Args) > 0 {
+						recv = cc.Args[0]
+					}
+					if recv == nil || !strings.Contains(recv.Type().String(), "TrieBucket") {
+						continue
+					}
+					n++
+					cached := eng.DependsOn(recv, func(x ssa.Value) bool {
+						cl, ok := x.(*ssa.Call)
+						return ok && cl.Common().IsInvoke() == false && cl.Common().StaticCallee() != nil && baseName(cl.Common().StaticCallee().Name()) == "Get" && eng.DependsOnField(eng.CallRecv(cl), "index.indexKVStore.bucketCache")
+					})
+					c.Check(!cached, fmt.Sprintf("release@%s[%d]", p.FuncKey(fn), n), in, fn,
+						"a reader releases only a bucket it loaded itself (reader.GetBucket): a bucket obtained from bucketCache stays owned by the cache — Release returns its tries to the pool while the cache (and lock-free lookups through it) still use them, and the next bucket load recycles them",
+						"the released bucket can come from bucketCache.Get")
+				}
+			}
+		}
+		c.Check(n >= 3, "release-sites-found", nil, nil, "the readers release the buckets they load", fmt.Sprintf("%d sites", n))
+	})
+
+	c.Rule("UNION", "index.forwardIndex.loadSeriesIDsInMem{mutable and immutable store both consulted}", func() {
+		f := c.Fn("index.forwardIndex.loadSeriesIDsInMem")
+		for _, fld := range []string{"mutable", "immutable"} {
+			c.Check(p.MustPass(f, eng.LoadField("index.forwardIndex."+fld), 1) || mustPassT(p, f, eng.LoadField("index.forwardIndex."+fld)), "reads:"+fld, nil, f,
+				"every call reads the "+fld+" store: the series of a tag key are the UNION of both memory stores (a hit in the mutable store says nothing about the store being flushed)",
+				"a path returns without reading fi."+fld)
+		}
+	})
+
 	c.Rule("ORDER", "index{memory read < snapshot}", func() {
 		memoryBeforeSnapshot(c, []orderedReader{
 			{"index.invertedIndex.getSeriesIDs", "index.invertedIndex", invokeOn(".family", "GetSnapshot"), true},
@@ -750,4 +800,13 @@ func int64OrZero(v ssa.Value) int64 {
 	}
 	k, _ := eng.ConstInt(v)
 	return k
+}
+
+// mustPassT: every path from the entry of f to a return passes a site matched by m (helpers and in-place closures are
+// looked through).
+func mustPassT(p *eng.Prog, f *ssa.Function, m eng.Matcher) bool {
+	_, skip := eng.PathExists(eng.PathQuery{Fn: f,
+		Target:  func(in ssa.Instruction) bool { _, ok := in.(*ssa.Return); return ok && in.Parent() == f },
+		Blocked: func(in ssa.Instruction) bool { return m(p, in) }})
+	return !skip
 }
